@@ -313,6 +313,12 @@ def run(tier):
                                'cli_runs': len([e for e in runs if e['entry'] == 'cli']),
                                'runs_after_earlier_run_into_same_prefix': len([e for e in runs if e.get('prior')]),
                                'runs_with_two_lanes': len([e for e in runs if e.get('lanes', 1) > 1]),
+                               'cli_runs_autodetected_strategy': len([e for e in runs if e.get('cli_auto')]),
+                               'runs_input_without_final_newline': len([e for e in runs if e.get('nofinalnl')]),
+                               'runs_crlf_input': len([e for e in runs if e.get('eol') == 'crlf']),
+                               'runs_long_library_name': len([e for e in runs if len(e['lib']) > 50]),
+                               'runs_empty_library_name': len([e for e in runs if e['lib'] == '']),
+                               'runs_low_rlimit_nofile': len([e for e in runs if e.get('nofile')]),
                                'oracle_outcomes_per_strategy': acc_stats,
                                'divergences': c.notes.get('DIVERGENCE', 0)})
 
